@@ -80,7 +80,10 @@ Fixpoint inline_conds (fuel : nat) (frs : list fragdef) (sels : list sel) : res 
       fold_left (fun acc s =>
         l <- acc ;;
         match s with
-        | SInline tc _ _ => Ok (l ++ [tc])
+        | SInline (Some tc) _ _ => Ok (l ++ [Some tc])
+        | SInline None _ sub =>
+            (* no type condition: the fragment applies to the enclosing type; look inside it *)
+            l' <- inline_conds fuel' frs sub ;; Ok (l ++ l')
         | SSpread n _ =>
             match lookup_frag frs n with
             | Some f => l' <- inline_conds fuel' frs (fr_sel f) ;; Ok (l ++ l')
@@ -254,16 +257,33 @@ Fixpoint resolve (fuel : nat) (S : schema) (frs : list fragdef) (sels : list sel
                 end
             end
         | SInline tc _ sub =>
-            match tc with
-            | None => Err "AttributeError: inline fragment without type condition"
-            | Some tc =>
-                match inline_root_type S tc root with
-                | Some r => q <- resolve fuel' S frs sub r ;; Ok (fields ++ fst q, mixins ++ snd q)
-                | None => Ok (fields, mixins)
-                end
+            (* a missing type condition means the enclosing type *)
+            match inline_root_type S (match tc with Some tc => tc | None => root end) root with
+            | Some r => q <- resolve fuel' S frs sub r ;; Ok (fields ++ fst q, mixins ++ snd q)
+            | None => Ok (fields, mixins)
             end
         end) sels (Ok ([], []))
   end.
+
+(* _get_fragment_bases: the fragments a fragment class inherits from, transitively *)
+Fixpoint fragment_bases (fuel : nat) (S : schema) (frs : list fragdef) (name : string) : res (list string) :=
+  match fuel with
+  | O => Err "fuel"
+  | S fuel' =>
+      match lookup_frag frs name with
+      | None => Err "KeyError: fragment"
+      | Some f =>
+          q <- resolve fuel' S frs (fr_sel f) (fr_on f) ;;
+          fold_left (fun acc b => l <- acc ;; l' <- fragment_bases fuel' S frs b ;; Ok (l ++ l'))
+                    (snd q) (Ok (snd q))
+      end
+  end.
+
+(* _remove_inherited_fragments *)
+Definition remove_inherited (fuel : nat) (S : schema) (frs : list fragdef) (mixins : list string)
+  : res (list string) :=
+  inh <- fold_left (fun acc f => l <- acc ;; l' <- fragment_bases fuel S frs f ;; Ok (l ++ l')) mixins (Ok []) ;;
+  Ok (filter (fun f => negb (mem f inh)) mixins).
 
 (* _get_typename_values for the class generated for related type tn *)
 Definition typename_values (S : schema) (rel : list related) (tn : string) : list string :=
@@ -320,9 +340,10 @@ Fixpoint parse_type_def (fuel : nat) (C : cfg) (S : schema) (frs : list fragdef)
         let fields :=
           if add_typename && negb (existsb (fun f => String.eqb (fn_name f) "__typename") fields0)
           then typename_node :: fields0 else fields0 in
+        kept <- remove_inherited fuel' S frs mixins ;;
         let bases := (match mixins with
                       | [] => ["BaseModel"]
-                      | _ => map pascal_s (sorted_set mixins)
+                      | _ => map pascal_s (sorted_set kept)
                       end) ++ extra_bases in
         r <- fold_left (fun acc f =>
                st <- acc ;;
